@@ -44,7 +44,7 @@ func statChanges(before, after run.Snapshot, paths []string) []mon.Problem {
 func c02(args []string) {
 	c := chk.New("C02", "exploration", args)
 	c.Build(false)
-	c.Rule("[partial re-runs] complete run, an upstream intermediate removed, RunTo / RunToRegex a process further down whose own outputs exist: only the removed file's task runs; [reserved-looking names] outputs named <another output>.fifo, log/*.log and prov/<name>.audit.json through a complete run and twelve re-runs; [old modification times] in every second complete-run / re-run history the tools set the modification time of their outputs to the year 2001; [changed wrapper] complete run, then the same workflow with another Prepend (different command lines, same output paths): nothing runs, nothing changes; [gathered files] a task with a joined in-port whose output exists while parts of it are computed in the same run (file placed by the user; one part deleted after a complete run): not executed, file untouched; [interrupted runs] the run is killed inside a task's finalization (hook points after a declared output was renamed, temp directory still there) and re-run in place without cleanup: outputs already at their final paths keep inode/mtime/bytes and no command of their tasks runs; [links and pass-through] histories: complete run, an intermediate output that has a consumer is moved away and linked back (relative and absolute link), run again twice: no command runs, no file appears, every entry keeps inode/mtime/bytes; a process whose out-port path is its input path ({i:in}), file there before the first run: its command never runs and the file is never touched. generated non-streaming graphs of command / Go-function processes and sources; for each graph subsets of its tasks (all subsets when <= 5 tasks, else random ones) get all their outputs pre-placed (bytes of an earlier complete run incl. audit files / arbitrary user bytes / empty files), and the history 'complete run, run again in place' (also: 4-16 independent chains that end in the sink and fan into one merging process, also a process whose out-port is declared through SetOut only; chains / two-output tasks / diamonds with outputs in nested, parent-relative and absolute directories, re-run completely and after deleting the last process's outputs; 4-16 independent chains re-run 25-60 times in place as separate processes and 60-150 times inside one process, so that every process finishes at the same moment); oracle = no start event of a skipped task, (inode, size, mtime_ns, sha256) of every pre-existing output unchanged, downstream tasks executed exactly once on the pre-existing bytes (reference evaluation), re-run executes nothing. distinct_nontrivial = distinct (graph shape, subset, content kind) with >= 1 skipped and >= 1 executed task, plus re-run histories")
+	c.Rule("[sources gone] complete run, the raw source files removed (archived) while every output stays, run again: nothing runs, nothing changes, the run succeeds; [partial re-runs] complete run, an upstream intermediate removed, RunTo / RunToRegex a process further down whose own outputs exist: only the removed file's task runs; [reserved-looking names] outputs named <another output>.fifo, log/*.log and prov/<name>.audit.json through a complete run and twelve re-runs; [old modification times] in every second complete-run / re-run history the tools set the modification time of their outputs to the year 2001; [changed wrapper] complete run, then the same workflow with another Prepend (different command lines, same output paths): nothing runs, nothing changes; [gathered files] a task with a joined in-port whose output exists while parts of it are computed in the same run (file placed by the user; one part deleted after a complete run): not executed, file untouched; [interrupted runs] the run is killed inside a task's finalization (hook points after a declared output was renamed, temp directory still there) and re-run in place without cleanup: outputs already at their final paths keep inode/mtime/bytes and no command of their tasks runs; [links and pass-through] histories: complete run, an intermediate output that has a consumer is moved away and linked back (relative and absolute link), run again twice: no command runs, no file appears, every entry keeps inode/mtime/bytes; a process whose out-port path is its input path ({i:in}), file there before the first run: its command never runs and the file is never touched. generated non-streaming graphs of command / Go-function processes and sources; for each graph subsets of its tasks (all subsets when <= 5 tasks, else random ones) get all their outputs pre-placed (bytes of an earlier complete run incl. audit files / arbitrary user bytes / empty files), and the history 'complete run, run again in place' (also: 4-16 independent chains that end in the sink and fan into one merging process, also a process whose out-port is declared through SetOut only; chains / two-output tasks / diamonds with outputs in nested, parent-relative and absolute directories, re-run completely and after deleting the last process's outputs; 4-16 independent chains re-run 25-60 times in place as separate processes and 60-150 times inside one process, so that every process finishes at the same moment); oracle = no start event of a skipped task, (inode, size, mtime_ns, sha256) of every pre-existing output unchanged, downstream tasks executed exactly once on the pre-existing bytes (reference evaluation), re-run executes nothing. distinct_nontrivial = distinct (graph shape, subset, content kind) with >= 1 skipped and >= 1 executed task, plus re-run histories")
 	c.Assume("subsets are subsets of tasks (all outputs of a task present), as the property quantifies; partial presence is C03's subject", ".audit.json files, log/ and atime are not judged")
 	rng := c.Rand("c02")
 	ngraphs := c.Pick(14, 120)
@@ -349,6 +349,7 @@ func c02(args []string) {
 	c02changedWrapper(c)
 	c02reservedNames(c)
 	c02runToHistory(c)
+	c02sourceGone(c)
 	c.Finish()
 }
 
@@ -1178,5 +1179,64 @@ func c02runToHistory(c *chk.Ctx) {
 		c.Count("outputs_stat_compared", len(kept))
 		c.Count("partial_rerun_histories", 1)
 		c.Nontrivial(fmt.Sprintf("runtohistory|%s|%s|%s", removeOf, mode, target))
+	})
+}
+
+// c02sourceGone: history "complete run; the raw source files are removed (archived, cleaned up) while every output
+// stays; run again". Every task's outputs exist, so no command runs, nothing changes and the run completes.
+func c02sourceGone(c *chk.Ctx) {
+	run.Parallel(c.Pick(2, 6), func(i int) {
+		root := c.CaseDir()
+		defer c.Drop(root)
+		in, o1 := []spec.PortDecl{{Name: "in"}}, []spec.PortDecl{{Name: "out"}}
+		s := &spec.Spec{Name: "sourcegone", MaxTasks: 2, Sources: map[string]string{"raw0.txt": "r0\n", "raw1.txt": "r1\n"}}
+		s.Procs = append(s.Procs, &spec.Proc{Name: "src", Kind: spec.KFileSource, Files: []string{"raw0.txt", "raw1.txt"}},
+			&spec.Proc{Name: "up", Kind: []string{spec.KCmd, spec.KGoFunc}[i%2], Cmd: spec.BuildCmd("up", in, o1, nil, nil, nil)},
+			&spec.Proc{Name: "down", Kind: spec.KCmd, Cmd: spec.BuildCmd("down", in, o1, nil, nil, nil)})
+		s.Conns = append(s.Conns, &spec.Conn{From: "src.out", To: "up.in"}, &spec.Conn{From: "up.out", To: "down.in"})
+		cfg := Cfg{Buf: 3, Procs: 2, NoHooks: i%2 == 1}
+		desc := map[string]interface{}{"spec": s, "cfg": cfg, "history": "complete run; source files removed; run again"}
+		r1 := execSpec(c, root, s, cfg, nil, false, 0)
+		if r1.Hang != "" && !strings.HasPrefix(r1.Hang, "deadlock") {
+			c.Inconclusive(r1.Hang)
+			return
+		}
+		if r1.Hang != "" || r1.Exit != 0 || !r1.Returned {
+			c.Violation("exit-nonzero", fmt.Sprintf("first run: exit %d %s: %s", r1.Exit, r1.Hang, tail(r1.Output(), 400)), desc)
+			return
+		}
+		os.Remove(filepath.Join(r1.Wd, "raw0.txt"))
+		os.Remove(filepath.Join(r1.Wd, "raw1.txt"))
+		before := run.Snap(r1.Wd)
+		var kept []string
+		for p, e := range before {
+			if e.Mode == "f" && !mon.IsAuditFile(p) && !mon.IsHarnessFile(p) {
+				kept = append(kept, p)
+			}
+		}
+		r2 := execSpec(c, root, s, cfg, nil, true, 1)
+		if r2.Hang != "" && !strings.HasPrefix(r2.Hang, "deadlock") {
+			c.Inconclusive(r2.Hang)
+			return
+		}
+		var rp []mon.Problem
+		if r2.Hang != "" || r2.Exit != 0 || !r2.Returned {
+			rp = append(rp, mon.Problem{Sig: "rerun-failed", Msg: fmt.Sprintf("re-run without the source files: exit %d %s: %s", r2.Exit, r2.Hang, tail(r2.Output(), 400))})
+		}
+		for _, e := range r2.Trace {
+			if e.Ev == "start" {
+				rp = append(rp, mon.Problem{Sig: "rerun-executed-command", Msg: "the re-run executed " + e.Key + " although its output existed"})
+			}
+		}
+		rp = append(rp, statChanges(before, run.Snap(r2.Wd), kept)...)
+		if len(rp) > 0 {
+			for _, sig := range sigSet(rp) {
+				desc["problems"] = mon.Summarize(rp, 10)
+				c.Violation(sig+"|sources-gone", strings.Join(mon.Summarize(rp, 4), "\n  "), desc)
+			}
+			return
+		}
+		c.Count("outputs_stat_compared", len(kept))
+		c.Nontrivial(fmt.Sprintf("sourcegone|%d", i))
 	})
 }
